@@ -389,3 +389,5 @@ func (w *hrWorker) build() {
 }
 
 var _ sdk.Msg
+
+func (w *hrWorker) XWorldForTier2() *XWorld { return w.w }
